@@ -13,7 +13,13 @@ void sim_op_begin(int tag, int fk, int fm);  // per-op allocation counter := 0, 
 int  sim_op_end();                           // disarm; returns #allocations made inside SUT calls of this op
 int  sim_op_allocs();                        // allocations so far in this op
 int  sim_fault_fired();                      // #allocations failed in this op
-void sim_fault_suspend(bool on);             // thread-local: SUT calls made for harness bookkeeping are neither counted nor failed
+void sim_fault_suspend(bool on);             // thread-local, nests: SUT calls made for harness bookkeeping are neither counted nor failed
+bool sim_fault_suspended();
+void sim_errno_reset();                      // new run
+void sim_errno_enter();                      // restore errno to what the previous real library call left (not for bookkeeping calls)
+void sim_errno_leave();
+void sim_write_fail(int n);                  // the next n write() calls made by the SUT on fds > 2 fail with ENOSPC
+uint64_t sim_write_failed();
 void sim_in_sut(bool on);                    // thread-local: allocations/frees are the SUT's
 bool sim_is_in_sut();
 size_t sim_ledger_live(std::string *detail = nullptr);  // live SUT-allocated blocks
@@ -23,8 +29,9 @@ int  sim_lock_depth();
 void sim_note_depth_change(int delta);       // a single SUT call returned with the lock depth changed
 int  sim_take_depth_change();                // first recorded change since the last take (0 = none)
 // every call into the SUT goes through one of these guards; InSut also checks "same lock depth on return as on entry"
-struct InSut { int d0; InSut() { sim_in_sut(true); d0 = sim_lock_depth(); } ~InSut() { int d = sim_lock_depth() - d0; if (d) sim_note_depth_change(d); sim_in_sut(false); } };
-struct InSutLock { InSutLock() { sim_in_sut(true); } ~InSutLock() { sim_in_sut(false); } };   // for the container's own lock()/unlock()
+struct InSut { int d0; InSut() { sim_in_sut(true); d0 = sim_lock_depth(); sim_errno_enter(); } ~InSut() { sim_errno_leave(); int d = sim_lock_depth() - d0; if (d) sim_note_depth_change(d); sim_in_sut(false); } };
+struct InSutLock { InSutLock() { sim_in_sut(true); sim_errno_enter(); } ~InSutLock() { sim_errno_leave(); sim_in_sut(false); } };
+struct Bookkeeping { Bookkeeping() { sim_fault_suspend(true); } ~Bookkeeping() { sim_fault_suspend(false); } };   // for the container's own lock()/unlock()
 
 // ------------------------------------------------------------ file layer
 void sim_fopen_fail(int n);                  // the next n fopen() calls made by the SUT on this thread fail (EACCES)
